@@ -3,7 +3,7 @@
 //! peer. Exact prediction is replaced by history invariants that hold for every
 //! legal interleaving, plus bounded liveness after the last fault (C10 C11 C12 C13 C14).
 
-use super::client::{start_tcp_client, submit, Style};
+use super::client::{start_tcp_client_slow, submit, Style};
 use super::common::*;
 use crate::driver::{RunOut, ScenCfg};
 use crate::model::client::{MState, Outcome};
@@ -98,6 +98,7 @@ pub fn run_client_racy(cfg: &ScenCfg, out: &mut RunOut) {
         w.cfg.max_latency_ns = lat;
     });
     let (dec_idx, decode) = pick_decode(&cfg.decode);
+    let inject = cfg.faults;
     let addr: SocketAddr = "10.0.0.9:502".parse().unwrap();
     let retry_min = [1 * MS, 40 * MS][choose(2) as usize];
     let retry_max = retry_min * [1u64, 4][choose(2) as usize];
@@ -109,7 +110,9 @@ pub fn run_client_racy(cfg: &ScenCfg, out: &mut RunOut) {
         .max_response_timeouts(max_timeouts.and_then(std::num::NonZeroUsize::new));
     net::stub_listen(addr);
     let mut server_up = true;
-    let rig = start_tcp_client(addr, (retry_min, retry_max), opts);
+    // the user's listener may be slow: its future is awaited inline by the client task
+    let slow_listener = if inject && chance(1, 4) { [200_000u64, 3 * MS][choose(2) as usize] } else { 0 };
+    let rig = start_tcp_client_slow(addr, (retry_min, retry_max), opts, slow_listener);
     let ch = rig.channel.clone().unwrap();
     let ch2 = ch.clone();
     let mut subs: BTreeMap<usize, Sub> = BTreeMap::new();
@@ -125,7 +128,6 @@ pub fn run_client_racy(cfg: &ScenCfg, out: &mut RunOut) {
     let mut wl = dec_idx as u64 ^ (qcap as u64) << 8;
     let timeouts = [5 * MS, 50 * MS, 400 * MS];
     let turns = 15 + choose(60) as usize;
-    let inject = cfg.faults;
     // the last enable/disable command submitted (commands are processed in order)
     let mut last_ctrl: Option<bool> = None;
     // most runs start enabled
@@ -551,7 +553,8 @@ pub fn run_client_racy(cfg: &ScenCfg, out: &mut RunOut) {
             return;
         }
         if let (Some((t0, MState::WaitAfterFailedConnect(d) | MState::WaitAfterDisconnect(d))), MState::Connecting) = (last, s) {
-            if *t != served_at(t0 + d) {
+            // (a slow listener delays the start of the wait: then the attempt may only be later)
+            if (slow_listener == 0 && *t != served_at(t0 + d)) || *t < t0 + d {
                 let msg = format!("announced a wait of {} ns at {} but the next attempt started at {}", d, t0, t);
                 out.violate("C14", "racy/wait_not_honoured", msg.clone());
                 out.violate("C13", "racy/wait_not_honoured", msg);
